@@ -192,18 +192,36 @@ PROPS = {
             note="2-D assembly, shift handling, padding and shape agreement are only bounded-checked (7x7 filter pairs, depths 0..2 quick / 0..3 thorough, small sizes).",
         ),
     ),
+    "C14": dict(
+        modules=["c14_encoder"],
+        level="proof",
+        assumptions=[],
+        manifest=dict(category="proof", technique="contract-based deductive verification (under construction)", text="under construction", note="under construction"),
+    ),
 }
 
 
+BROKEN = {}  # pid -> import error of a bounded module that (by its file name cNN_...) serves that property
+
+
 def _merge_bounded():
-    """bounded/*.py modules contribute REGISTER = {pid: dict(extra=[hook], assumptions=[..], level=.., manifest={..})}."""
+    """bounded/*.py modules contribute REGISTER = {pid: dict(extra=[hook], assumptions=[..], level=.., manifest={..})}.
+    A module that fails to import only breaks the checks of the properties its file name mentions (cNN[_cMM]_...):
+    `verif check` of such a property is a CHECKER-ERROR, every other property is unaffected."""
     import importlib
     import os
     import pkgutil
+    import re
+    import traceback
 
     here = os.path.join(os.path.dirname(os.path.abspath(__file__)), "bounded")
     for m in sorted(pkgutil.iter_modules([here])):
-        mod = importlib.import_module("bounded." + m.name)
+        try:
+            mod = importlib.import_module("bounded." + m.name)
+        except Exception:
+            for n in re.findall(r"c(\d\d)(?=_)", m.name):
+                BROKEN["C" + n] = "bounded/%s.py does not import:\n%s" % (m.name, traceback.format_exc())
+            continue
         for pid, d in getattr(mod, "REGISTER", {}).items():
             if pid in PROPS:
                 PROPS[pid].setdefault("extra", []).extend(d.get("extra", []))
